@@ -76,13 +76,19 @@ macro_rules! int_ops {
                 fv,
             ),
             Op::Uld(_) => Ret::Val(fv(unsafe { a.unsync_load() })),
-            Op::Await(_, v, o) => loop {
-                let u = a.load(*o);
-                if u == tv(*v) {
-                    break Ret::Val(fv(u));
+            Op::Await(_, v, o) => {
+                let mut spins = 0u32;
+                loop {
+                    let u = a.load(*o);
+                    if u == tv(*v) {
+                        break Ret::Val(fv(u));
+                    }
+                    spins += 1;
+                    // far beyond any branch limit the DSL configures: reached only if the limit is not enforced
+                    assert!(spins < AWAIT_SPIN_CAP, "harness: await spun {} times (branch limit not enforced)", spins);
+                    loom::thread::yield_now();
                 }
-                loom::thread::yield_now();
-            },
+            }
             _ => unreachable!(),
         }
     }};
@@ -155,13 +161,19 @@ impl AnyAtomic {
                         fv,
                     ),
                     Op::Uld(_) => Ret::Val(fv(unsafe { a.unsync_load() })),
-                    Op::Await(_, v, o) => loop {
-                        let u = a.load(*o);
-                        if u == tv(*v) {
-                            break Ret::Val(fv(u));
+                    Op::Await(_, v, o) => {
+                        let mut spins = 0u32;
+                        loop {
+                            let u = a.load(*o);
+                            if u == tv(*v) {
+                                break Ret::Val(fv(u));
+                            }
+                            spins += 1;
+                            // far beyond any branch limit the DSL configures: reached only if the limit is not enforced
+                            assert!(spins < AWAIT_SPIN_CAP, "harness: await spun {} times (branch limit not enforced)", spins);
+                            loom::thread::yield_now();
                         }
-                        loom::thread::yield_now();
-                    },
+                    }
                     _ => unreachable!(),
                 }
             }
@@ -193,13 +205,19 @@ impl AnyAtomic {
                         fv,
                     ),
                     Op::Uld(_) => Ret::Val(fv(unsafe { a.unsync_load() })),
-                    Op::Await(_, v, o) => loop {
-                        let u = a.load(*o);
-                        if u == tv(*v) {
-                            break Ret::Val(fv(u));
+                    Op::Await(_, v, o) => {
+                        let mut spins = 0u32;
+                        loop {
+                            let u = a.load(*o);
+                            if u == tv(*v) {
+                                break Ret::Val(fv(u));
+                            }
+                            spins += 1;
+                            // far beyond any branch limit the DSL configures: reached only if the limit is not enforced
+                            assert!(spins < AWAIT_SPIN_CAP, "harness: await spun {} times (branch limit not enforced)", spins);
+                            loom::thread::yield_now();
                         }
-                        loom::thread::yield_now();
-                    },
+                    }
                     Op::Fetch(..) => panic!("harness: ptr has no fetch op"),
                     _ => unreachable!(),
                 }
@@ -457,6 +475,9 @@ pub fn run_thread(w: Rc<World>, body: usize) {
         pc += 1;
     }
 }
+
+/// see `Op::Await`
+const AWAIT_SPIN_CAP: u32 = 60_000;
 
 fn raw_layout() -> loom::alloc::Layout {
     loom::alloc::Layout::from_size_align(1000, 8).unwrap()
